@@ -35,6 +35,11 @@ def run(tier, seed):
                        what="stream history violates rank uniqueness / smallest-unused / reuse / get_num / life cycle")
     if done:
         chk.sample({"history": [{k: v for k, v in e.items() if k not in ("q",)} for e in done[0][:25]]})
+    # replacing the main scheduler (from the primary ULT and from ULTs in any pool of a multi-pool scheduler) keeps the
+    # stream and the caller running: the kernel scenario `replace`, judged by the life-cycle specification H_Exec
+    vlib.history_check(chk, "d_kernel", ["replace"], "H_Exec", quick, seed, nseeds_quick=300, nseeds_thorough=3000,
+                       optsets=(("nes=0", "cfg=0"),), free_runs=0, env={"ABTV_BUDGET": "400000"},
+                       what="after ABT_xstream_set_main_sched[_basic] the caller or another unit is lost / runs twice / the stream cannot be joined")
     chk.extra["runs_by_verdict"] = {"done": len(done), "abnormal": len(abnormal)}
     chk.assumptions += ["sequential histories are validated deterministically; the concurrent scenario (3 external creators) by linearizability search",
                         "the linked-list model assumes the primary stream owns rank 0 for the whole run (checked invariant HeadIsPrimary); "
@@ -43,8 +48,11 @@ def run(tier, seed):
 
 
 def replay(path):
+    evs = vlib.read_ndjson(path)
+    if evs and evs[0].get("scn") == "replace":
+        return vlib.generic_replay(PID, "H_Exec", path)
     chk = vlib.Check(PID, "quick", 0)
-    runs = vlib.split_runs(vlib.read_ndjson(path))
+    runs = vlib.split_runs(evs)
     done, _ = vlib.classify_runs(chk, runs)
     vlib.validate_runs(chk, done, os.path.join(SPEC, "RankListTrace.tla"), os.path.join(SPEC, "RankListTrace.cfg"))
     for k, w, rp in chk.violations:
